@@ -76,8 +76,23 @@ def _hashable(x):
     return x
 
 
+class ShardTimeout(BaseException):
+    pass
+
+
 def _work(arg):
     pid, tier, shard = arg
+    # watchdog: a shard that never returns (code under test blocking outside the harness's control) ends the run with a harness error instead of hanging it
+    import signal
+    limit = int(os.environ.get('PCFG_VERIF_SHARD_TIMEOUT', '5400'))
+
+    def on_alarm(signum, frame):
+        raise ShardTimeout('shard %r did not finish within %d s' % (shard, limit))
+    try:
+        signal.signal(signal.SIGALRM, on_alarm)
+        signal.alarm(limit)
+    except (ValueError, AttributeError):
+        pass
     try:
         mod = importlib.import_module('pcfgmc.props.' + pid.lower())
         acc = Acc()
@@ -85,6 +100,11 @@ def _work(arg):
         return ('ok', acc.export())
     except BaseException:
         return ('err', 'shard %r: %s' % (shard, traceback.format_exc()))
+    finally:
+        try:
+            signal.alarm(0)
+        except (ValueError, AttributeError):
+            pass
 
 
 def match_known(sig, known_sigs):
